@@ -249,6 +249,7 @@ func (d Diff) RenderPatch() (string, error) {
 				Value: e,
 			})
 		}
+		element.Add = slices.Clone(element.Add)
 		slices.Reverse(element.Add)
 		for _, e := range element.Add {
 			if isVoid(element.Add[0]) {
@@ -273,17 +274,20 @@ func (d Diff) RenderMerge() (string, error) {
 		// A noop JSON Merge Patch should be an empty object
 		return "{}", nil
 	}
-	for _, e := range d {
+	nulled := make(Diff, len(d))
+	for n, e := range d {
 		if !e.Metadata.Merge {
 			return "", fmt.Errorf("cannot render non-merge element as merge")
 		}
+		e.Add = slices.Clone(e.Add)
 		for i := range e.Add {
 			if isVoid(e.Add[i]) {
 				e.Add[i] = jsonNull{}
 			}
 		}
+		nulled[n] = e
 	}
-	mergePatch, err := voidNode{}.Patch(d)
+	mergePatch, err := voidNode{}.Patch(nulled)
 	if err != nil {
 		return "", err
 	}
